@@ -3,6 +3,7 @@ package cat
 import (
 	"context"
 	"math"
+	"time"
 
 	"github.com/samber/ro"
 	"verif.local/harness/h"
@@ -144,6 +145,34 @@ func SyncRows() []Row {
 			}
 			if end != nil {
 				if end.K == h.C && len(buf) > 0 {
+					out = append(out, h.Nx(buf))
+				}
+				out = append(out, *end)
+			}
+			return out
+		})
+		r.ValueCtx = "any"
+		add(r)
+	}
+	// BufferWithTimeOrCount with a period that never elapses within a scenario: the count side only. Every
+	// completion flushes (an empty buffer too); an error is forwarded without a flush.
+	for _, n := range []int{1, 2} {
+		n := n
+		r := mkRow(name("BufferWithTimeOrCount(%d,1h)", n), "BufferWithTimeOrCount", SS, func(e *Env) Op[int, []int] {
+			return Op[int, []int](ro.BufferWithTimeOrCount[int](n, time.Hour))
+		}, func(in []h.Ev) []h.Ev {
+			vals, end := split(in)
+			var out []h.Ev
+			buf := []int{}
+			for _, v := range vals {
+				buf = append(buf, iv(v))
+				if len(buf) >= n {
+					out = append(out, h.Nx(buf))
+					buf = []int{}
+				}
+			}
+			if end != nil {
+				if end.K == h.C {
 					out = append(out, h.Nx(buf))
 				}
 				out = append(out, *end)
